@@ -53,8 +53,15 @@ class NowModel:
 
         def clock_env(ex_, st, callee, args, fn):
             i = len([e for e in st.trace if e.kind == 'clock_gettime'])
-            if i >= 2:
-                raise EngineError('more than two clock reads on a path of now()')
+            if i >= 6:
+                raise EngineError('more than six clock reads on a path of now()')
+            while i >= len(self.readings):
+                # further reads: later readings of the two clocks (each at or after every earlier reading of the same path)
+                k = len(self.readings)
+                s_, n_ = z3.Int('clk%d_s' % k), z3.Int('clk%d_n' % k)
+                self.readings.append(Struct([s_, n_])); self.clock_ok.append(z3.Bool('clk%d_ok' % k))
+                self.ex.side.append(z3.And(n_ >= 0, n_ < NS, s_ >= -Y68, s_ <= Y68))
+                self.extra_reads = getattr(self, 'extra_reads', []) + [(k, s_, n_)]
             ok = self.clock_ok[i]
             ret = Enum(z3.If(ok, z3.IntVal(0), z3.IntVal(1)),
                        {'Ok': Struct([self.readings[i]]),
